@@ -502,6 +502,280 @@ fn check(case: &Case, ctx: &mut Ctx, property: &str) -> Verdict {
     Ok(())
 }
 
+// ------------------------------------------------------------------------------------------------
+// section `traffic`: several events of one shared pool / lake in flight, endpoints spread over tasks
+
+#[derive(Debug, Clone, Copy, Serialize, Deserialize, PartialEq, Eq)]
+enum TStep {
+    /// act on the sender of event e (if this task holds it): send / drop
+    Send { e: u8 },
+    DropSender { e: u8 },
+    Poll { e: u8, w: u8 },
+    IntoValue { e: u8 },
+    DropReceiver { e: u8 },
+    /// rent a fresh event from the shared pool on this task and keep both endpoints here
+    Rent,
+    Yield,
+}
+
+#[derive(Debug, Clone, Serialize, Deserialize)]
+struct TCase {
+    /// false = EventPool, true = EventLake
+    lake: bool,
+    /// per pre-rented event: (task holding the sender, task holding the receiver)
+    events: Vec<(u8, u8)>,
+    tasks: Vec<Vec<TStep>>,
+    schedule: Vec<u8>,
+}
+
+fn tcase_strategy() -> impl Strategy<Value = TCase> {
+    let step = prop_oneof![
+        4 => (0u8..6).prop_map(|e| TStep::Send { e }),
+        2 => (0u8..6).prop_map(|e| TStep::DropSender { e }),
+        5 => (0u8..6, 0u8..2).prop_map(|(e, w)| TStep::Poll { e, w }),
+        1 => (0u8..6).prop_map(|e| TStep::IntoValue { e }),
+        2 => (0u8..6).prop_map(|e| TStep::DropReceiver { e }),
+        2 => Just(TStep::Rent),
+        1 => Just(TStep::Yield),
+    ];
+    let sched_byte = prop_oneof![5 => Just(0u8), 3 => 128u8..=255, 1 => 1u8..128];
+    (any::<bool>(), prop::collection::vec((0u8..3, 0u8..3), 1..4), prop::collection::vec(prop::collection::vec(step, 1..8), 2..4), prop::collection::vec(sched_byte, 0..60)).prop_map(|(lake, events, tasks, schedule)| TCase { lake, events, tasks, schedule })
+}
+
+#[derive(Default)]
+struct EvLog {
+    sent: bool,
+    sender_dropped_unsent: bool,
+    outcomes: Vec<Seen>,
+}
+
+fn check_traffic(case: &TCase, ctx: &mut Ctx, property: &str) -> Verdict {
+    let kind = if case.lake { "lake" } else { "pooled" };
+    let f = |p: &str, k: &str, msg: String| Failure::new(format!("{p}/{kind}/traffic/{k}"), format!("{msg}; case={case:?}"));
+    let ledger = Arc::new(Ledger::default());
+    let ntasks = case.tasks.len();
+    let logs: Arc<Mutex<Vec<EvLog>>> = Arc::new(Mutex::new(Vec::new()));
+    let rents = Arc::new(std::sync::atomic::AtomicU32::new(0));
+    let leftovers: Arc<Mutex<Vec<(usize, PooledReceiver<Tracked>)>>> = Arc::new(Mutex::new(Vec::new()));
+    let pool_len: Arc<Mutex<Option<usize>>> = Arc::new(Mutex::new(None));
+    enum Shared {
+        Pool(EventPool<Tracked>),
+        Lake(EventLake),
+    }
+    impl Shared {
+        fn rent(&self) -> (PooledSender<Tracked>, PooledReceiver<Tracked>) {
+            match self {
+                Shared::Pool(p) => p.rent(),
+                Shared::Lake(l) => l.rent::<Tracked>(),
+            }
+        }
+        fn len(&self) -> usize {
+            match self {
+                Shared::Pool(p) => p.len(),
+                Shared::Lake(l) => l.len(),
+            }
+        }
+    }
+    let cfg = vsched::Config::default();
+    let out = {
+        let ledger1 = Arc::clone(&ledger);
+        let ledger_f = Arc::clone(&ledger);
+        let logs1 = Arc::clone(&logs);
+        let logs_f = Arc::clone(&logs);
+        let rents1 = Arc::clone(&rents);
+        let leftovers1 = Arc::clone(&leftovers);
+        let leftovers_f = Arc::clone(&leftovers);
+        let pool_len_f = Arc::clone(&pool_len);
+        let case1 = case.clone();
+        let shared_slot: Arc<Mutex<Option<Arc<Shared>>>> = Arc::new(Mutex::new(None));
+        let shared_f = Arc::clone(&shared_slot);
+        vsched::run_with_finale(
+            &case.schedule,
+            &cfg,
+            move || {
+                let shared = Arc::new(if case1.lake { Shared::Lake(EventLake::new()) } else { Shared::Pool(EventPool::new()) });
+                *shared_slot.lock().unwrap() = Some(Arc::clone(&shared));
+                let mut senders: Vec<Vec<(usize, PooledSender<Tracked>)>> = (0..ntasks).map(|_| Vec::new()).collect();
+                let mut receivers: Vec<Vec<(usize, PooledReceiver<Tracked>)>> = (0..ntasks).map(|_| Vec::new()).collect();
+                for (i, (st, rt)) in case1.events.iter().enumerate() {
+                    let (s, r) = shared.rent();
+                    rents1.fetch_add(1, Ordering::SeqCst);
+                    logs1.lock().unwrap().push(EvLog::default());
+                    senders[usize::from(*st) % ntasks].push((i, s));
+                    receivers[usize::from(*rt) % ntasks].push((i, r));
+                }
+                let mut v: Vec<vsched::TaskFn> = Vec::new();
+                for (ti, script) in case1.tasks.iter().enumerate() {
+                    let mut my_s = std::mem::take(&mut senders[ti]);
+                    let mut my_r = std::mem::take(&mut receivers[ti]);
+                    let script = script.clone();
+                    let shared = Arc::clone(&shared);
+                    let ledger = Arc::clone(&ledger1);
+                    let logs = Arc::clone(&logs1);
+                    let rents = Arc::clone(&rents1);
+                    let leftovers = Arc::clone(&leftovers1);
+                    v.push(Box::new(move || {
+                        for st in &script {
+                            match *st {
+                                TStep::Yield => vsched::yield_point(),
+                                TStep::Rent => {
+                                    let (s, r) = shared.rent();
+                                    rents.fetch_add(1, Ordering::SeqCst);
+                                    let id = {
+                                        let mut l = logs.lock().unwrap();
+                                        l.push(EvLog::default());
+                                        l.len() - 1
+                                    };
+                                    my_s.push((id, s));
+                                    my_r.push((id, r));
+                                }
+                                TStep::Send { e } | TStep::DropSender { e } if !my_s.is_empty() => {
+                                    let i = usize::from(e) % my_s.len();
+                                    let (id, s) = my_s.swap_remove(i);
+                                    if matches!(st, TStep::Send { .. }) {
+                                        logs.lock().unwrap()[id].sent = true;
+                                        s.send(Tracked::new(SENT + id as u64, &ledger, true));
+                                    } else {
+                                        logs.lock().unwrap()[id].sender_dropped_unsent = true;
+                                        drop(s);
+                                    }
+                                }
+                                TStep::Poll { e, w } if !my_r.is_empty() => {
+                                    let i = usize::from(e) % my_r.len();
+                                    let wk = waker(usize::from(w), &ledger, true, None);
+                                    let mut cx = Context::from_waker(&wk);
+                                    let res = Pin::new(&mut my_r[i].1).poll(&mut cx);
+                                    if let Poll::Ready(r) = res {
+                                        let (id, rx) = my_r.swap_remove(i);
+                                        drop(rx);
+                                        logs.lock().unwrap()[id].outcomes.push(observe_id(r, id));
+                                    }
+                                }
+                                TStep::IntoValue { e } if !my_r.is_empty() => {
+                                    let i = usize::from(e) % my_r.len();
+                                    let (id, rx) = my_r.swap_remove(i);
+                                    match rx.into_value() {
+                                        Ok(t) => logs.lock().unwrap()[id].outcomes.push(observe_id(Ok(t), id)),
+                                        Err(IntoValueError::Disconnected) => logs.lock().unwrap()[id].outcomes.push(Seen::Disconnected),
+                                        Err(IntoValueError::Pending(back)) => my_r.push((id, back)),
+                                    }
+                                }
+                                TStep::DropReceiver { e } if !my_r.is_empty() => {
+                                    let i = usize::from(e) % my_r.len();
+                                    let (_, rx) = my_r.swap_remove(i);
+                                    drop(rx);
+                                }
+                                _ => {}
+                            }
+                        }
+                        // senders still held are dropped here; receivers are parked for the finale
+                        for (id, s) in my_s {
+                            logs.lock().unwrap()[id].sender_dropped_unsent = true;
+                            drop(s);
+                        }
+                        leftovers.lock().unwrap().extend(my_r);
+                    }));
+                }
+                v
+            },
+            move || {
+                let parked = std::mem::take(&mut *leftovers_f.lock().unwrap());
+                for (id, mut rx) in parked {
+                    let wk = waker(7, &ledger_f, false, None);
+                    let mut cx = Context::from_waker(&wk);
+                    match Pin::new(&mut rx).poll(&mut cx) {
+                        Poll::Ready(r) => logs_f.lock().unwrap()[id].outcomes.push(observe_id(r, id)),
+                        Poll::Pending => logs_f.lock().unwrap()[id].outcomes.push(Seen::DeadValue),
+                    }
+                    drop(rx);
+                }
+                if let Some(sh) = shared_f.lock().unwrap().take() {
+                    *pool_len_f.lock().unwrap() = Some(sh.len());
+                }
+            },
+        )
+    };
+    ctx.classify(&format!("traffic:{kind}"));
+    ctx.classify(&format!("tasks:{ntasks}"));
+    if out.hung {
+        return Err(f(property, "hang", "execution did not finish".into()));
+    }
+    if out.step_bound_hit {
+        ctx.classify("inconclusive-step-bound");
+        return Ok(());
+    }
+    if let Some((t, m)) = out.panics.first() {
+        return Err(f(property, "panic", format!("task {t} panicked: {m}")));
+    }
+    let nrents = rents.load(Ordering::SeqCst) as usize;
+    if nrents > case.events.len() {
+        ctx.classify("rented-while-others-in-flight");
+    }
+    let cross = case.events.iter().filter(|(a, b)| usize::from(*a) % ntasks != usize::from(*b) % ntasks).count();
+    if cross >= 2 && out.preemptions > 0 {
+        ctx.nontrivial();
+    }
+    // C05 per event
+    for (id, l) in logs.lock().unwrap().iter().enumerate() {
+        if l.outcomes.len() > 1 {
+            return Err(f("C05", "outcome/two-terminal-outcomes", format!("event {id}: {:?}", l.outcomes)));
+        }
+        for o in &l.outcomes {
+            match o {
+                Seen::Value(v) => {
+                    if !l.sent || *v != SENT + id as u64 {
+                        return Err(f("C05", "outcome/wrong-or-foreign-value", format!("event {id} delivered {v:#x} (sent here: {})", l.sent)));
+                    }
+                }
+                Seen::DeadValue => return Err(f("C05", "outcome/pending-after-sender-completed-or-dead-payload", format!("event {id}: final poll still pending, or a destroyed payload was handed over"))),
+                Seen::Disconnected => {
+                    if l.sent || !l.sender_dropped_unsent {
+                        return Err(f("C05", "outcome/disconnected-despite-send", format!("event {id} reported Disconnected (sent={}, sender dropped unsent={})", l.sent, l.sender_dropped_unsent)));
+                    }
+                }
+            }
+        }
+    }
+    let created = ledger.payload_created.load(Ordering::Relaxed);
+    let dropped = ledger.payload_dropped.load(Ordering::Relaxed);
+    if ledger.payload_dropped_twice.load(Ordering::Relaxed) > 0 || created != dropped {
+        return Err(f("C05", "payload/not-destroyed-exactly-once", format!("{created} payloads created, {dropped} destroyed after all endpoints are gone")));
+    }
+    let clones = ledger.waker_clones.load(Ordering::Relaxed);
+    let consumed = ledger.waker_consumed.load(Ordering::Relaxed);
+    if ledger.waker_double_consume.load(Ordering::Relaxed) > 0 || clones != consumed {
+        return Err(f("C05", "waker/clone-not-consumed-exactly-once", format!("{clones} waker clones, {consumed} consumed")));
+    }
+    for r in &out.races {
+        let p = if r.object == "payload" || r.object == "waker clone" { "C05" } else { "C06" };
+        return Err(f(p, &format!("race/{}", r.object.replace(' ', "-")), format!("task {} {} vs task {} {}", r.first_task, r.first, r.second_task, r.second)));
+    }
+    // C06
+    if out.releases.len() != nrents {
+        return Err(f("C06", "release/count-differs-from-rentals", format!("{nrents} events rented, {} storage releases", out.releases.len())));
+    }
+    if let Some(r) = out.releases.iter().find(|r| !r.unordered_with.is_empty()) {
+        return Err(f("C06", "release/not-ordered-after-other-endpoint", format!("task {} released an event although accesses of task(s) {:?} do not happen-before the release", r.task, r.unordered_with)));
+    }
+    if let Some(n) = *pool_len.lock().unwrap() {
+        if n != 0 {
+            return Err(f("C06", "pool/not-empty-after-all-endpoints-gone", format!("len() = {n} after every endpoint is gone ({nrents} rentals)")));
+        }
+    }
+    ledger.free_wakers();
+    Ok(())
+}
+
+fn observe_id(r: Result<Tracked, Disconnected>, _id: usize) -> Seen {
+    match r {
+        Ok(t) => match t.read() {
+            Some(v) => Seen::Value(v),
+            None => Seen::DeadValue,
+        },
+        Err(Disconnected) => Seen::Disconnected,
+    }
+}
+
 fn main() {
     vsched::install_shim!(events_once);
     events_once::__verif::install_release_hook(Some(vsched::hook_release));
@@ -514,5 +788,13 @@ fn main() {
         "same executions; oracle: exactly one release_event per event (hook H4), every earlier atomic access of the other task to the event storage happens-before the release in the vector-clock model, no HB race on harness-owned cells, pool/lake len()==0 after both endpoints are gone. non-trivial = execution with >= 2 context switches and a poll; distinct by serialised case"
     };
     h.section("two-endpoint", rule, cases, case_strategy(), |case, ctx| check(case, ctx, &prop));
+    let cases = h.cases(150_000, 8_000_000);
+    h.section(
+        "traffic",
+        "1..3 events rented up front from one shared EventPool / EventLake plus events rented mid-run, their senders and receivers spread over 2..3 tasks (send, drop sender, poll with waker 0|1, into_value, drop receiver; leftover receivers are polled by the harness after quiescence), under generated schedule bytes. Oracle per event as in `two-endpoint` (outcome, payload exactly once, waker clones), storage releases == rentals with every release ordered after the other endpoint's accesses, pool / lake len() == 0 at the end. non-trivial = >= 2 events whose endpoints live on different tasks and >= 1 pre-emption; distinct by serialised case",
+        cases,
+        tcase_strategy(),
+        |case, ctx| check_traffic(case, ctx, &prop),
+    );
     h.finish()
 }
